@@ -7,6 +7,8 @@ CONSTANTS
   BreakStep = 2
   FromInput <- FromRef
   ExplicitTargets = TRUE
+  Replacements <- NoRepl
+  Edits <- NoEdits
   Refusals = TRUE
   ZeroHeightRefused = TRUE
   AlignTarget = FALSE
